@@ -404,3 +404,4 @@ PROPS["C12"]["mir"].append(ob("storage_close_dumps_c12", "ob_worker", "storage_c
 PROPS["C01"]["mir"].append(ob("storage_read_glue", "ob_blobread", "storage_read_glue"))
 PROPS["C02"]["mir"].append(ob("storage_read_glue_c02", "ob_blobread", "storage_read_glue"))
 PROPS["C02"]["mir"].append(ob("delete_entry_glue", "ob_delete", "delete_entry_glue"))
+PROPS["C15"]["mir"].append(ob("records_count_rows", "ob_misc", "records_count_rows", kwargs={"B": 2}, thorough_kwargs={"B": 3}))
